@@ -15,8 +15,8 @@ def mk_term(spec: dict, engine=None):
     if cls == "Linear":
         return fl.Linear(name, [float(v) for v in p], engine)
     if cls == "Function":
-        t = fl.Function(name, spec["formula"], variables=dict(spec.get("vars") or {}), engine=engine, load=False)
-        return t
+        # loaded by Engine(...) through update_reference, exactly as for an imported engine
+        return fl.Function(name, spec["formula"], variables=dict(spec.get("vars") or {}), engine=engine, load=False)
     return getattr(fl, cls)(name, *[float(v) for v in p], h)
 
 
